@@ -54,16 +54,16 @@ TraceBegin ==
 TraceAudit ==
   /\ Line("audit")
   /\ \E c \in Clients :
-       \/ C!Log(c) /\ M!EntryMatches(alog'[Len(alog')], Trace[l])
-       \/ C!LogApply(c) /\ Len(last'.audit) = 1 /\ M!EntryMatches(last'.audit[1], Trace[l])
+       \/ (C!Log(c) \/ C!LogList(c) \/ C!LogAfter(c)) /\ M!EntryMatches(alog'[Len(alog')], Trace[l])
+       \/ (C!LogApply(c) \/ C!LogDeniedCond(c)) /\ Len(last'.audit) = 1 /\ M!EntryMatches(last'.audit[1], Trace[l])
   /\ l' = l + 1 /\ UNCHANGED a
 
 \* the same step witnessed by the next line of the real audit file
 TraceAuditSide ==
   /\ a <= Len(ATrace)
   /\ \E c \in Clients :
-       \/ C!Log(c) /\ M!EntryMatches(alog'[Len(alog')], ATrace[a])
-       \/ C!LogApply(c) /\ Len(last'.audit) = 1 /\ M!EntryMatches(last'.audit[1], ATrace[a])
+       \/ (C!Log(c) \/ C!LogList(c) \/ C!LogAfter(c)) /\ M!EntryMatches(alog'[Len(alog')], ATrace[a])
+       \/ (C!LogApply(c) \/ C!LogDeniedCond(c)) /\ Len(last'.audit) = 1 /\ M!EntryMatches(last'.audit[1], ATrace[a])
   /\ a' = a + 1 /\ UNCHANGED l
 
 TraceEnd ==
@@ -93,7 +93,7 @@ TraceReset ==
 
 \* unlogged steps: the linearization point, a pre-ACL refusal, a locked call that writes no record
 Silent ==
-  /\ \E c \in Clients : C!Apply(c) \/ C!Refuse(c) \/ (C!LogApply(c) /\ last'.audit = <<>>)
+  /\ \E c \in Clients : C!Apply(c) \/ C!Refuse(c) \/ (C!LogApply(c) /\ last'.audit = <<>>) \/ C!ApplyCond(c)
   /\ UNCHANGED <<l, a>>
 
 Init == C!Init /\ l = 1 /\ a = 1
